@@ -108,7 +108,7 @@ let pk_name = function
   | PK_InvalidIn -> "PK_InvalidIn" | PK_ExpectedIn -> "PK_ExpectedIn" | PK_InvalidNotIn -> "PK_InvalidNotIn"
   | PK_RangeBrace -> "PK_RangeBrace" | PK_InvalidRange -> "PK_InvalidRange" | PK_SetSyntax -> "PK_SetSyntax"
   | PK_InvalidAttr -> "PK_InvalidAttr" | PK_ExpectedIdentAfter -> "PK_ExpectedIdentAfter" | PK_SendChannel -> "PK_SendChannel"
-  | PK_SendValue -> "PK_SendValue" | PK_InvalidReceive -> "PK_InvalidReceive" | PK_InvalidReturn -> "PK_InvalidReturn" | PK_InvalidCase -> "PK_InvalidCase"
+  | PK_SendValue -> "PK_SendValue" | PK_InvalidReceive -> "PK_InvalidReceive" | PK_InvalidReturn -> "PK_InvalidReturn" | PK_InvalidCase -> "PK_InvalidCase" | PK_InvalidElseIf -> "PK_InvalidElseIf"
 
 let () =
   let fuel = nat_of_int 400 in
